@@ -1036,7 +1036,11 @@ impl TryFrom<&mut Peekable<Lexer>> for ParserNode {
                             // not found
                             let mut values = Vec::new();
                             loop {
-                                let next = lex.peek_any()?;
+                                // The end of the file (or an unlexable token,
+                                // reported when it is parsed next) ends the list
+                                let Ok(next) = lex.peek_any() else {
+                                    break;
+                                };
                                 if let TokenType::Newline = next.token_type() {
                                     // consume newline
                                     lex.get_any()?;
